@@ -16,6 +16,7 @@
 """
 import itertools
 import json
+import os
 import random
 import time
 
@@ -50,10 +51,18 @@ META = {
                   '`*`, `?` and literals only.  Tasks whose clean behaviour is invisible (no `clean`, or `clean: True` '
                   'with no existing target) cannot be observed and are excluded from the observed order, as in the model.',
     'rule': 'case = task table (1-9 tasks, groups with sub-tasks, task_dep/setup edges from a random topological order, '
-            'sometimes a cycle) + argv + default_tasks + target tree + backend; non-trivial = accepted, at least two tasks '
+            'sometimes a cycle; literal names with [ ] ?) + clean = True | list of 1-3 actions of many shapes + argv + '
+            'default_tasks + target tree with symbolic links + backend; non-trivial = accepted, at least two tasks '
             'visibly cleaned and at least one dependency edge between two cleaned tasks; distinct = distinct canonical case',
     'assumptions': ['a generated `clean` is `True` or a list of 1-3 actions (python callable with / without a `dryrun` '
                     'parameter, shell command); a dryrun-aware callable told dryrun=True does not touch the tree',
+                    'python clean actions come as def / **kwargs / *args / defaulted parameter / functools.partial / callable '
+                    'object, with and without a parameter named `dryrun`',
+                    'targets may be symbolic links (to files inside / outside the tree, to directories that cannot become '
+                    'empty, broken); a target link to an EMPTY directory is not generated: the code calls os.rmdir on the link '
+                    'and dies with NotADirectoryError (model: event `crash`; theorem no_links_no_crash); no target path runs '
+                    'through a linked directory; clean actions never touch a link',
+                    'task names may contain the fnmatch metacharacters [ ] ? ! (only `*` makes an argument a pattern)',
                     'targets are normalised relative paths without trailing slash; two tasks never share a target '
                     '(TaskControl rejects that)',
                     'patterns use only `*`, `?` and literal characters',
@@ -72,12 +81,25 @@ def gen_tasks(rng):
     tasks = []
     k = 0
     while len(tasks) < n_target:
-        if rng.random() < 0.25:
+        r = rng.random()
+        if r < 0.25:
             g = len(tasks)
             lab = 'g%d' % k
             tasks.append({'label': lab, 'subtask_of': None})
-            for j in range(rng.randint(1, 3)):
-                tasks.append({'label': '%s:%s%d' % (lab, rng.choice(['s', 's', 'x']), j), 'subtask_of': g})
+            if rng.random() < 0.2:
+                # sub-task names that contain fnmatch metacharacters, next to the name they would match as a pattern
+                subnames = rng.choice([['s[0]', 's0'], ['s0', 's[0]'], ['p?', 'px'], ['s[0]']])
+            else:
+                subnames = ['%s%d' % (rng.choice(['s', 's', 'x']), j) for j in range(rng.randint(1, 3))]
+            for sn in subnames:
+                tasks.append({'label': '%s:%s' % (lab, sn), 'subtask_of': g})
+        elif r < 0.37:
+            # a literal task name with `[`, `]` or `?` and (usually) the task it would select if read as a pattern
+            magic, twin = rng.choice([('p%d[1]', 'p%d1'), ('q%d?', 'q%dx'), ('r%d[ab]', 'r%da'), ('v%d[!x]', 'v%dy')])
+            pair = [magic % k] + ([twin % k] if rng.random() < 0.85 else [])
+            rng.shuffle(pair)
+            for lab in pair:
+                tasks.append({'label': lab, 'subtask_of': None})
         else:
             tasks.append({'label': '%s%d' % (rng.choice(['t', 't', 'u', 'tt', 'x']), k), 'subtask_of': None})
         k += 1
@@ -139,7 +161,13 @@ def gen_targets(rng, tasks):
                     eff = ['rm', rng.choice(['junk%d' % i, 'o%d/f' % i, 'top%d' % i, 'o%d/extra' % i, 'shared/p%d' % i])]
                 elif r < 0.5:
                     eff = ['mk', 'new%d_%d' % (i, k)]
-                acts.append({'type': rng.choice(['aware', 'plain', 'cmd']), 'eff': eff})
+                typ = rng.choice(['aware', 'plain', 'cmd'])
+                form = 'def'
+                if typ == 'plain' and rng.random() < 0.6:
+                    form = rng.choice(cleanlib.PLAIN_FORMS)
+                elif typ == 'aware' and rng.random() < 0.5:
+                    form = rng.choice(cleanlib.AWARE_FORMS)
+                acts.append({'type': typ, 'eff': eff, 'form': form})
             t['actions'] = acts
         if rng.random() < (0.92 if t['kind'] == 'targets' else 0.15):
             pool = ['o%d' % i, 'o%d/f' % i, 'o%d/g.txt' % i, 'o%d/sub' % i, 'o%d/sub/h' % i, 'top%d' % i,
@@ -162,15 +190,57 @@ def gen_targets(rng, tasks):
                 state[a['eff'][1]] = 'file'    # what the action removes usually exists
     if rng.random() < 0.2:
         state['shared/other'] = 'file'
+    # symbolic links among the targets of `clean: True` tasks: to a file outside / inside the tree, to a directory that
+    # can never become empty (os.rmdir on a link to an empty directory kills the command: kept out, see META), broken
+    links = []
+    for i, t in enumerate(tasks):
+        if t['kind'] == 'targets' and rng.random() < 0.3:
+            for _ in range(rng.randint(1, 2)):
+                kind = rng.choice(['out-file', 'out-file', 'in-file', 'out-dir', 'in-dir', 'broken'])
+                link = rng.choice(['ln%d' % i, 'o%d/lnk' % i, 'lnk%d.d/l' % i])
+                if any(l[0] == link for l in links) or link in state:
+                    continue
+                if kind == 'out-file':
+                    dest = '../store/v%d.txt' % i
+                    state[dest] = 'file'
+                elif kind == 'in-file':
+                    dest = 'top%d' % i
+                    state[dest] = 'file'
+                    if rng.random() < 0.5 and dest not in t['targets']:
+                        t['targets'].append(dest)
+                elif kind == 'out-dir':
+                    dest = '../store/d%d' % i
+                    state[dest + '/keep'] = 'file'
+                elif kind == 'in-dir':
+                    dest = 'keepdir%d' % i
+                    state[dest + '/keep'] = 'file'
+                else:
+                    dest = 'nowhere%d' % i
+                t['targets'].append(link)
+                links.append([link, dest])
     for p, s in sorted(state.items()):
         if s == 'missing':
             continue
         parts = p.split('/')
         for k in range(1, len(parts)):
-            dirs.add('/'.join(parts[:k]))
+            if parts[:k] != ['..']:
+                dirs.add('/'.join(parts[:k]))
         (files if s == 'file' else dirs).add(p)
     files -= dirs
-    return sorted(files), sorted(dirs)
+    out_links = []
+    for link, dest in links:
+        parts = link.split('/')
+        for k in range(1, len(parts)):
+            dirs.add('/'.join(parts[:k]))
+        out_links.append([link, os.path.relpath(dest, os.path.dirname(link) or '.')])
+    for d in list(dirs):
+        if d.startswith('../'):
+            parts = d.split('/')
+            for k in range(2, len(parts)):
+                dirs.add('/'.join(parts[:k]))
+    dirs.discard('..')
+    files -= dirs
+    return sorted(files), sorted(dirs), out_links
 
 
 PATTERNS = ['*', 'g*', 't*', '*:s0', '*:*', 'g1:*', '*1', 'u*', '*x*', 'g?*']
@@ -178,6 +248,13 @@ PATTERNS = ['*', 'g*', 't*', '*:s0', '*:*', 'g1:*', '*1', 'u*', '*x*', 'g?*']
 
 def gen_args(rng, tasks):
     labels = [t['label'] for t in tasks]
+    magic = [l for l in labels if any(c in l for c in '[]?')]
+    if magic and rng.random() < 0.5:
+        # name the task with metacharacters literally (command line or default_tasks)
+        pick = [rng.choice(magic)] + ([rng.choice(labels)] if rng.random() < 0.3 else [])
+        if rng.random() < 0.7:
+            return pick, (None if rng.random() < 0.7 else [rng.choice(labels)]), 'magic-name'
+        return [], pick, 'magic-default'
     r = rng.random()
     if r < 0.25:
         pos, mode = [], 'none'
@@ -206,7 +283,7 @@ def gen_args(rng, tasks):
 
 def gen_case(rng):
     tasks, cyclic = gen_tasks(rng)
-    files, dirs = gen_targets(rng, tasks)
+    files, dirs, links = gen_targets(rng, tasks)
     pos, defaults, mode = gen_args(rng, tasks)
     labels = [t['label'] for t in tasks]
     r = rng.random()
@@ -214,7 +291,7 @@ def gen_case(rng):
     return {'tasks': tasks, 'pos': pos, 'defaults': defaults,
             'cleandep': rng.random() < 0.4, 'cleanall': rng.random() < 0.12,
             'dryrun': rng.random() < 0.25, 'forget': rng.random() < 0.45,
-            'files': files, 'dirs': dirs, 'backend': rng.choice(['json', 'dbm', 'sqlite3']), 'ran': ran,
+            'files': files, 'dirs': dirs, 'links': links, 'backend': rng.choice(['json', 'dbm', 'sqlite3']), 'ran': ran,
             'sel_mode': mode}
 
 
@@ -330,6 +407,10 @@ def shrink_candidates(case):
                 del c['tasks'][i]['actions'][j]
                 yield c
         for j, a in enumerate(acts):
+            if a.get('form', 'def') != 'def':
+                c = json.loads(json.dumps(case))
+                c['tasks'][i]['actions'][j]['form'] = 'def'
+                yield c
             if a.get('eff'):
                 c = json.loads(json.dumps(case))
                 c['tasks'][i]['actions'][j]['eff'] = None
@@ -355,6 +436,10 @@ def shrink_candidates(case):
             c = dict(case)
             c[key] = case[key][:j] + case[key][j + 1:]
             yield c
+    for j in range(len(case.get('links', []))):
+        c = dict(case)
+        c['links'] = case['links'][:j] + case['links'][j + 1:]
+        yield c
     if case.get('ran'):
         c = dict(case)
         c['ran'] = []
@@ -392,7 +477,8 @@ def describe(case):
         if t['setup']:
             s += ' setup=' + ','.join(case['tasks'][d]['label'] for d in t['setup'])
         if t['kind'] == 'actions':
-            s += ' clean=[' + ', '.join(a['type'] + (':%s %s' % tuple(a['eff']) if a.get('eff') else '')
+            s += ' clean=[' + ', '.join(a['type'] + ('(%s)' % a['form'] if a.get('form', 'def') != 'def' else '')
+                                        + (':%s %s' % tuple(a['eff']) if a.get('eff') else '')
                                         for a in t.get('actions', [])) + ']'
         else:
             s += ' clean=' + {'act': '[plain]', 'actdry': '[aware]'}.get(t['kind'], t['kind'])
@@ -402,7 +488,8 @@ def describe(case):
     argv = ['clean'] + [o for f, o in (('cleandep', '--clean-dep'), ('cleanall', '--clean-all'),
                                        ('dryrun', '--dry-run'), ('forget', '--forget')) if case.get(f)] + case['pos']
     return {'tasks': ts, 'argv': ' '.join(argv), 'default_tasks': case.get('defaults'),
-            'files': case['files'], 'dirs': case['dirs'], 'backend': case['backend'], 'ran': case.get('ran')}
+            'files': case['files'], 'dirs': case['dirs'], 'links': ['%s -> %s' % tuple(l) for l in case.get('links', [])],
+            'backend': case['backend'], 'ran': case.get('ran')}
 
 
 def is_nontrivial(case, obs):
@@ -422,6 +509,8 @@ def process_batch(batch):
         n_edges = sum(len(cleanlib.deps_of(t)) for t in tasks)
         st.count('edges:%s' % ('0' if n_edges == 0 else '1-3' if n_edges <= 3 else '4-8' if n_edges <= 8 else '9+'))
         st.count('sel:%s' % case.get('sel_mode', 'corpus'))
+        if any(c in t['label'] for t in tasks for c in '[]?'):
+            st.count('has-name-with-metachars')
         st.count('defaults:%s' % ('none' if case.get('defaults') is None else 'empty' if not case['defaults'] else 'some'))
         for f in ('cleandep', 'cleanall', 'dryrun', 'forget'):
             if case.get(f):
@@ -437,10 +526,15 @@ def process_batch(batch):
             st.count('has-group')
         if any(t['setup'] for t in tasks):
             st.count('has-setup-edge')
+        for l in case.get('links', []):
+            st.count('symlink-target:%s' % ('outside' if '../store' in l[1] or l[1].startswith('../../') else 'inside/broken'))
         for t in tasks:
             acts = t.get('actions', []) if t['kind'] == 'actions' else []
             if acts:
                 st.count('clean-list-len:%d' % len(acts))
+                for a in acts:
+                    if a['type'] != 'cmd':
+                        st.count('py-action:%s/%s' % (a['type'], a.get('form', 'def')))
                 types = [a['type'] for a in acts]
                 if 'aware' in types and any(x != 'aware' for x in types[types.index('aware') + 1:]):
                     st.count('clean-list:aware-before-non-aware')
@@ -466,8 +560,8 @@ def process_batch(batch):
                 c2, o2, a2, d2, f2 = case, obs, ans, diffs, failed
             st.violation({'case': c2, 'described': describe(c2), 'failed_clauses': f2,
                           'impl': {k: o2.get(k) for k in ('outcome', 'argv', 'order', 'events', 'files0', 'dirs0',
-                                                          'files', 'dirs', 'db0', 'db')},
-                          'model': {k: a2.get(k) for k in ('outcome', 'order', 'events', 'files', 'dirs', 'db', 'base',
+                                                          'links0', 'files', 'dirs', 'links', 'db0', 'db')},
+                          'model': {k: a2.get(k) for k in ('outcome', 'order', 'events', 'files', 'dirs', 'links', 'db', 'base',
                                                            'acyclic', 'with_deps')}},
                          'monitor', '; '.join(f2))
         elif diffs:
@@ -545,6 +639,7 @@ def replay(ctx, data):
     print('model events :', a.get('events'))
     print('impl  files  :', o.get('files0'), '->', o.get('files'))
     print('impl  dirs   :', o.get('dirs0'), '->', o.get('dirs'))
+    print('impl  links  :', o.get('links0'), '->', o.get('links'), '  model:', a.get('links'))
     print('impl  db     :', o.get('db0'), '->', o.get('db'), '  model:', a.get('db'))
     print('monitor      :', a.get('monitor'), failed)
     print('correspondence differences:', diffs)
